@@ -214,6 +214,8 @@ class Polygon(Shape2D):
             scale (float):
                 Scale factor.
         """
+        if not scale > 0:
+            raise ValueError("Shapes can only be rescaled by a factor greater than zero.")
         self._vertices *= scale
 
     @property
